@@ -116,6 +116,51 @@ Section StableSortFacts.
       change (x :: r) with ([x] ++ r). rewrite (filter_app (same z) [x] r). reflexivity.
   Qed.
 
+  (* dropping elements after sorting = sorting without them *)
+  Lemma insert_after_filter (p : A -> bool) x l :
+    sorted l ->
+    filter p (insert_after tle x l)
+    = if p x then insert_after tle x (filter p l) else filter p l.
+  Proof.
+    unfold sorted. induction l as [|y r IH]; intro H; simpl.
+    - destruct (p x); reflexivity.
+    - inversion H as [|? ? Hr Hy]; subst.
+      destruct (tle y x) eqn:E; simpl.
+      + rewrite (IH Hr). destruct (p y) eqn:Py; destruct (p x) eqn:Px; simpl; try rewrite E; reflexivity.
+      + destruct (p x) eqn:Px; simpl; [|reflexivity].
+        destruct (p y) eqn:Py; simpl; [rewrite E; reflexivity|].
+        (* every element of r is strictly later than x, so x goes in front *)
+        assert (Hall : forall w, In w r -> tle w x = false).
+        { intros w Hw. destruct (tle w x) eqn:Ew; [|reflexivity]. exfalso.
+          rewrite Forall_forall in Hy. pose proof (tle_trans y w x (Hy w Hw) Ew). congruence. }
+        clear -Hall. induction r as [|w t IHt]; simpl; [reflexivity|].
+        destruct (p w) eqn:Pw; simpl.
+        * rewrite (Hall w (or_introl eq_refl)). reflexivity.
+        * apply IHt. intros w' Hw'. apply Hall. right; exact Hw'.
+  Qed.
+
+  Lemma filter_sorted (p : A -> bool) l : sorted l -> sorted (filter p l).
+  Proof.
+    unfold sorted. induction 1 as [|y r Hr IH Hy]; simpl; [constructor|].
+    destruct (p y); [|exact IH]. constructor; [exact IH|].
+    rewrite Forall_forall in *. intros w Hw. apply filter_In in Hw as [Hw _]. apply Hy; exact Hw.
+  Qed.
+
+  Lemma fold_insert_filter (p : A -> bool) l acc :
+    sorted acc ->
+    filter p (fold_left (fun a x => insert_after tle x a) l acc)
+    = fold_left (fun a x => insert_after tle x a) (filter p l) (filter p acc).
+  Proof.
+    revert acc; induction l as [|x r IH]; intros acc H; simpl; [reflexivity|].
+    rewrite IH by (apply insert_after_sorted; exact H).
+    rewrite insert_after_filter by exact H.
+    destruct (p x); reflexivity.
+  Qed.
+
+  Theorem stable_sort_filter (p : A -> bool) l :
+    filter p (stable_sort tle l) = stable_sort tle (filter p l).
+  Proof. unfold stable_sort. rewrite fold_insert_filter by constructor. reflexivity. Qed.
+
   (* ---- the three facts about stable_sort *)
   Theorem stable_sort_perm l : Permutation (stable_sort tle l) l.
   Proof. unfold stable_sort. apply (fold_insert_perm l []). Qed.
